@@ -397,15 +397,11 @@ func (vc *VC) havocExternalHeap(st *State) {
 		if isGhostName(n) || strings.HasPrefix(n, "const$") {
 			continue
 		}
-		if strings.HasPrefix(n, "F$") {
-			// F$<pkg.Type>$field : rqlite types keep their values
-			tn := n[2:]
-			if !strings.Contains(tn, "/") && !isStdType(tn) {
+		if strings.HasPrefix(n, "F$") || strings.HasPrefix(n, "G$") {
+			// fields of rqlite types and rqlite package variables keep their values
+			if isRqlitePkg(heapPkg[n]) {
 				continue
 			}
-		}
-		if strings.HasPrefix(n, "G$"+modPath) || strings.HasPrefix(n, "G$rq.") {
-			continue
 		}
 		st.heap[n] = vc.fresh(n, vc.universe[n])
 	}
